@@ -13,6 +13,9 @@ replay segment.  Every later message must be
   * a suspender-helper message (between '_start_suspender' and the helper's closing 'rewindable'), or
   * a message object never seen before.
 Anything else is an unexpected replay; a pending segment that is skipped is a lost replay.
+A message that the interruption cancelled while it was being executed is not "work done": it leaves the
+cache and is executed once more, on behalf of whoever yielded it, after everything the interruption pushed
+has run (modelled as a one-message 'redo' segment placed directly above its yielder).
 """
 
 from sim import gen
@@ -178,7 +181,9 @@ def model_check(events):
     pending = []  # stack of lists of mids still to be replayed
     helpers = []  # stack of {"segment": [...], "phase": "pre"|"post", "msgs": int}
     seen = set()
-    notes = {"segments": 0, "replayed": 0, "helper_msgs": 0}
+    src = {}  # mid -> the pending segment it was last taken from (None: yielded by the plan itself)
+    ordinary = set()  # mids currently handed over as ordinary (non-helper) messages
+    notes = {"segments": 0, "replayed": 0, "redone": 0, "helper_msgs": 0}
 
     def reset():
         nonlocal cache
@@ -191,7 +196,7 @@ def model_check(events):
             if cache is not None:
                 cache = []
             if seg:
-                pending.append(seg)
+                pending.append({"ids": seg, "kind": "replay"})
                 notes["segments"] += 1
             continue
         if e.kind == "dev" and e.d["method"] == "pause" and e.d.get("fexc") == "NoReplayAllowed" and e.d.get("fault") == "raise":
@@ -201,6 +206,8 @@ def model_check(events):
             if helpers and helpers[-1]["phase"] == "pre" and not helpers[-1].get("started"):
                 helpers[-1]["segment"] = []
             reset()
+            # ... the message that was interrupted in flight included
+            pending[:] = [s for s in pending if s["kind"] != "redo"]
             continue
         if e.kind == "cmd" and e.d["cmd"] == "_start_suspender" and helpers:
             if e.d["end"] == "ok":
@@ -210,6 +217,23 @@ def model_check(events):
                 h = helpers.pop()
                 if e.d["end"] == "cancelled" and cache is not None and not cache:
                     cache = list(h["segment"])
+            continue
+        if e.kind == "cmd" and e.d["mid"] in ordinary:
+            m_ = e.d["mid"]
+            if e.d["cmd"] == "monitor" and e.d["end"] == "ok":
+                reset()
+            elif e.d["end"] == "cancelled" and e.d.get("state") in ("pausing", "suspending"):
+                # interrupted in flight: it leaves the cache and is executed again, on behalf of the plan (or
+                # replay) that yielded it, once everything pushed by the interruption has run
+                if cache and cache[-1] == m_:
+                    cache.pop()
+                redo = {"ids": [m_], "kind": "redo"}
+                s = src.get(m_)
+                if s is not None and any(s is x for x in pending):
+                    pending.insert([i for i, x in enumerate(pending) if x is s][0] + 1, redo)
+                else:
+                    pending.insert(0, redo)
+                ordinary.discard(m_)
             continue
         if e.kind != "msg":
             continue
@@ -235,34 +259,38 @@ def model_check(events):
                 if h["phase"] == "post":
                     helpers.pop()
                     if h["segment"]:
-                        pending.append(list(h["segment"]))
+                        pending.append({"ids": list(h["segment"]), "kind": "replay"})
                         notes["segments"] += 1
                 continue
             # any other helper message (pre/post plan, wait_for): not cached (rewindability is off)
             continue
         # ---- an ordinary message
-        while pending and not pending[-1]:
+        while pending and not pending[-1]["ids"]:
             pending.pop()
+        src[mid] = None
         if pending:
-            want = pending[-1][0]
+            top = pending[-1]
+            want = top["ids"][0]
             if mid == want:
-                pending[-1].pop(0)
-                notes["replayed"] += 1
+                top["ids"].pop(0)
+                src[mid] = top
+                notes["replayed" if top["kind"] == "replay" else "redone"] += 1
             elif mid in seen:
                 out.append(V("replay-out-of-order", f"expected replay of message #{want}, got #{mid} ({cmd})", want=want, got=mid, cmd=cmd))
                 # resynchronise
-                if mid in pending[-1]:
-                    del pending[-1][: pending[-1].index(mid) + 1]
+                if mid in top["ids"]:
+                    del top["ids"][: top["ids"].index(mid) + 1]
             else:
-                out.append(V("replay-lost", f"message #{mid} ({cmd}) is new but {len(pending[-1])} cached message(s) were still to be replayed (next #{want})", cmd=cmd, want=want))
+                out.append(V("replay-lost", f"message #{mid} ({cmd}) is new but {len(top['ids'])} cached message(s) were still to be replayed (next #{want})", cmd=cmd, want=want))
                 pending.pop()
         else:
             if mid in seen:
                 out.append(V("unexpected-replay", f"message #{mid} ({cmd}) was executed again although it is not in the replay cache", cmd=cmd, mid=mid))
         seen.add(mid)
+        ordinary.add(mid)
         if cache is not None and rewindable and cmd not in UNCACHEABLE:
             cache.append(mid)
-        if cmd in IMPLICIT:
+        if cmd in IMPLICIT and cmd != "monitor":  # ('monitor' really awaits: its checkpoint happens on completion)
             reset()
         elif cmd == "clear_checkpoint":
             cache = None
